@@ -93,12 +93,17 @@ func VerifC12Frames() {
 		verifC12Attr, verifC12Ul = zzverif.Uint8("attr"), zzverif.Choose("ul", 3)
 	}
 	for f := 0; f < 2; f++ {
+		if mode == 6 && f == 1 {
+			break // a single frame
+		}
 		win := vx.Window()
 		win.Clear()
 		for r := 0; r < rows; r++ {
 			for c := 0; c < cols; c++ {
 				sel := 1
-				if mode == 5 {
+				if mode == 6 {
+					sel = 1
+				} else if mode == 5 {
 					// pen carried across the frame boundary: frame 1 ends with a styled cell,
 					// frame 2 starts with a plain changed cell (cell 1 unchanged or plain too)
 					sel = 1 + f
@@ -113,7 +118,11 @@ func VerifC12Frames() {
 				sp := verifC12Alphabet[sel]
 				zzverif.Assume(!(sp.g == "世" && c == cols-1))
 				var st vaxis.Style
-				if mode == 5 && (f == 0 && c == cols-1 || f == 1 && c == cols-1 && sel == 1) {
+				if mode == 6 {
+					// both cells of the single frame with free bold / dim / italic / blink masks
+					m := vaxis.AttrBold | vaxis.AttrDim | vaxis.AttrItalic | vaxis.AttrBlink
+					st.Attribute = vaxis.AttributeMask(zzverif.Uint8("pairattr")) & m
+				} else if mode == 5 && (f == 0 && c == cols-1 || f == 1 && c == cols-1 && sel == 1) {
 					st.Attribute = vaxis.AttributeMask(verifC12Attr) & 0xFE
 					st.UnderlineStyle = vaxis.UnderlineStyle(verifC12Ul)
 				} else if sel != 0 && mode == 1 {
@@ -128,9 +137,9 @@ func VerifC12Frames() {
 					}
 				} else if sel != 0 && mode == 4 {
 					// hyperlinks: two URLs, with and without id parameters, next to each other
-					l := zzverif.Choose("link", 5)
-					st.Hyperlink = []string{"", "http://a", "http://a", "http://b", "http://a"}[l]
-					st.HyperlinkParams = []string{"", "", "id=main", "id=main", "id=x:k=v"}[l]
+					l := zzverif.Choose("link", 6)
+					st.Hyperlink = []string{"", "http://a", "http://a", "http://b", "http://a", "http://a/d;v=2?x=1;y=2"}[l]
+					st.HyperlinkParams = []string{"", "", "id=main", "id=main", "id=x:k=v", "id=main"}[l]
 				} else if mode == 3 && r == 0 && c == f%cols {
 					// any palette index: the renderer's and the emulator's boundaries between
 					// the 8 normal, 8 bright and 240 extended colours are found by the solver
@@ -150,7 +159,7 @@ func VerifC12Frames() {
 		} else {
 			vx.HideCursor()
 		}
-		if f == 0 || mode != 3 && mode != 5 && zzverif.Bool("refresh") {
+		if f == 0 || mode != 3 && mode != 5 && mode != 6 && zzverif.Bool("refresh") {
 			vx.Refresh()
 		} else {
 			vx.Render()
